@@ -400,6 +400,9 @@ def search_for_paths(logger: ConsolePrinter, processor: EYAMLProcessor,
     if seen_anchors is None:
         seen_anchors = []
 
+    exclude_alias_matchers = [AnchorMatches.UNSEARCHABLE_ALIAS,
+                              AnchorMatches.ALIAS_EXCLUDED]
+
     if isinstance(data, CommentedSeq):
         # Build the path
         if not build_path and pathsep is PathSeparators.FSLASH:
@@ -502,8 +505,18 @@ def search_for_paths(logger: ConsolePrinter, processor: EYAMLProcessor,
         for key, val in pool:
             tmp_path = build_path + YAMLPath.escape_path_section(key, pathsep)
 
-            # Search the value anchor to have it on record, in case the key
-            # anchor match would otherwise block the value anchor from
+            # The key itself may be an Anchor or Alias.
+            key_anchor_matched = Searches.search_anchor(
+                key, terms, seen_anchors, search_anchors=search_anchors,
+                include_aliases=include_key_aliases)
+            logger.debug(
+                ("yaml_paths::search_for_paths<dict>:"
+                 + "KEY anchor search, {}:  {}.")
+                .format(key, key_anchor_matched)
+            )
+
+            # Search the value anchor now to have it on record, in case the
+            # key match would otherwise block the value anchor from
             # appearing in seen_anchors (which is important).
             val_anchor_matched = Searches.search_anchor(
                 val, terms, seen_anchors, search_anchors=search_anchors,
@@ -514,19 +527,14 @@ def search_for_paths(logger: ConsolePrinter, processor: EYAMLProcessor,
                 .format(val_anchor_matched)
             )
 
+            # Aliased keys -- and everything beneath them -- are excluded
+            # unless the caller asks for them.
+            if (not include_key_aliases
+                    and key_anchor_matched in exclude_alias_matchers):
+                continue
+
             # Search the key when the caller wishes it.
             if search_keys:
-                # The key itself may be an Anchor or Alias.  Search it when the
-                # caller wishes.
-                key_anchor_matched = Searches.search_anchor(
-                    key, terms, seen_anchors, search_anchors=search_anchors,
-                    include_aliases=include_key_aliases)
-                logger.debug(
-                    ("yaml_paths::search_for_paths<dict>:"
-                     + "KEY anchor search, {}:  {}.")
-                    .format(key, key_anchor_matched)
-                )
-
                 if key_anchor_matched in [AnchorMatches.MATCH,
                                           AnchorMatches.ALIAS_INCLUDED]:
                     logger.debug(
@@ -671,6 +679,11 @@ def search_for_paths(logger: ConsolePrinter, processor: EYAMLProcessor,
                     + "KEY anchor search, {}:  {}.")
                 .format(key, key_anchor_matched)
             )
+
+            # Aliased members are excluded unless the caller asks for them.
+            if (not include_key_aliases
+                    and key_anchor_matched in exclude_alias_matchers):
+                continue
 
             if key_anchor_matched in [AnchorMatches.MATCH,
                                       AnchorMatches.ALIAS_INCLUDED]:
